@@ -4501,9 +4501,12 @@ where
           Some(ControlOperator::LE) if i128::from(*i) <= *v as i128 => None,
           Some(ControlOperator::GT) if i128::from(*i) > *v as i128 => None,
           Some(ControlOperator::GE) if i128::from(*i) >= *v as i128 => None,
+          // 256^v beyond i128 exceeds every CBOR integer, so an overflowing limit admits all of them
           Some(ControlOperator::SIZE) => match 256i128.checked_pow(*v as u32) {
-            Some(n) if i128::from(*i) < n => None,
-            _ => Some(format!("expected value .size {}, got {:?}", v, i)),
+            Some(n) if i128::from(*i) >= n => {
+              Some(format!("expected value .size {}, got {:?}", v, i))
+            }
+            _ => None,
           },
           Some(ControlOperator::BITS) => {
             if let Some(sv) = 1u32.checked_shl(*v as u32) {
